@@ -530,15 +530,15 @@ func c07RunCall(tb drv.TB, rec *drv.Rec, sub string, c c07Call) {
 			for i := 0; i < 32; i += 2 {
 				dec = append(dec, (enc[i]-'A')<<4|(enc[i+1]-'A'))
 			}
-			// a NetBIOS name is 16 bytes: shorter names are space padded; longer ones can only be carried as a prefix
-			got := strings.TrimRight(string(dec), " ")
-			wantName := strings.TrimRight(name, " ")
-			okName := got == wantName
-			if len(name) > 16 {
-				okName = len(got) >= 15 && strings.HasPrefix(wantName, got)
+			// a NetBIOS name is 16 bytes: a name of up to 16 bytes is carried as it is, padded with spaces (a trailing NUL or
+			// space is part of it: the 16th byte is the name's type suffix); a longer one is cut to 15 bytes and padded
+			wantName := name
+			if len(wantName) > 16 {
+				wantName = wantName[:15]
 			}
-			if !okName {
-				bad("nbns-name", string(dec), wantName)
+			wantName += strings.Repeat(" ", 16-len(wantName))
+			if string(dec) != wantName {
+				bad("nbns-name", fmt.Sprintf("%q", dec), fmt.Sprintf("%q", wantName))
 				return
 			}
 		case "ssdp-search":
@@ -646,7 +646,7 @@ func genC07Call(t *rapid.T) c07Call {
 		if rapid.IntRange(0, 4).Draw(t, "otherSrcMAC") == 0 {
 			c.SrcMAC = umac("sm")
 		}
-		c.Name = rapid.SampledFrom([]string{"WORKSTATION", "A", "FILESERVER-123", "SIXTEENCHARSNAME", "LONGERTHANSIXTEENCHARS", "*"}).Draw(t, "name")
+		c.Name = rapid.SampledFrom([]string{"WORKSTATION", "A", "FILESERVER-123", "SIXTEENCHARSNAME", "LONGERTHANSIXTEENCHARS", "*", "WORKGROUP      \x00", "NAS\x00", "FIFTEEN-CHARS-X\x20", "SIXTEENCHARSNAME    ", "SEVENTEEN-CHARS-X ", "name with  spaces "}).Draw(t, "name")
 	case "sleep-proxy":
 		c.SrcMAC, c.DstMAC = drv.Hex(w.HostMAC[:]), mac("dm")
 		if rapid.Bool().Draw(t, "v6") {
